@@ -336,6 +336,13 @@ def classify (p : SendParams) (copyErr : Bool) (written : Nat) : Trailer :=
     | .buffered => if (written : Int) = p.maxSize + 1 then .oversized else .complete
     | .streaming => if p.maxSize ≠ -1 ∧ (written : Int) > p.maxSize then .oversized else .complete
 
+/-- A runtime whose response body STALLS during `Read` number `j` (connection open, nothing arrives)
+    while a reset comes in: the reset closes the runtime's connection, which ends the parked `Read`
+    with an error. For the copy that is a source delivering its first `j` reads and then failing —
+    all theorems about `send` quantify over the source, so they cover it. -/
+def Src.stallAt (src : Src) (j : Nat) : Src :=
+  { chunks := (src.chunks.flatMap fun c => Rie.DirectInvoke.chunks c copyBuf).take j, fail := true, writerTo := false }
+
 /-- `SendDirectInvokeResponse` (bytes on the wire and the End-Of-Response trailer) -/
 def send (p : SendParams) (src : Src) (env : Env) : Out :=
   let r := reads p src
